@@ -307,6 +307,38 @@ def boundary_compressor_cases(ctx, rng, n, first_id=0):
     return cases
 
 
+def wrap_alias_cases(ctx, rng, n, first_id=0):
+    """histories aimed at the wrap of the compressor's input window buffer (inBuffTarget > inBuffSize) at an off-grid position:
+    a small flush at the very start shifts every block, the buffer wraps just above the window size, a second small flush
+    right after the wrap makes the first segment after the wrap tiny, then a full contiguous block overwrites the old segment.
+    The data is self-similar at the distance of one lap of the buffer (old and new bytes at the same buffer positions share a
+    short prefix), so that a match finder that still trusts overwritten positions emits matches the decoder resolves differently."""
+    cases = []
+    for i in range(n):
+        wl = rng.choice([10, 10, 11, 12, 12, 13]) if i % 6 else 17
+        lap = 1 << wl
+        period = rng.choice([32, 64, 64, 128])
+        snip = rng.choice([8, 12, 16, 16, 24])
+        q = rng.randbytes(period)
+        f1, f2 = rng.choice([1, 1, 2, 3, 5]), rng.choice([1, 1, 2, 3])
+        lap1 = bytearray(rng.randbytes(lap))
+        for j in range(0, lap, period):
+            lap1[j:j + snip] = q[:min(snip, lap - j)]
+        lap2 = (q * (lap // period + 1))[:lap]
+        x = rng.randbytes(f1) + bytes(lap1) + rng.randbytes(f2) + lap2 + rng.randbytes(rng.choice([0, 1, 100]))
+        # with small windows the lazy strategies (levels 5, 6) are the ones that reach back across the wrap point
+        p = {"level": rng.choice([1, 2, 3, 4, 5, 6]) if wl == 17 else rng.choice([5, 5, 6, 6, 6, 3, 1]), "windowLog": wl}
+        if rng.random() < 0.2:
+            p["checksum"] = 1
+        ops = "%d:r:1;%d:r:0;%d:r:1;%d:r:0;a:r:2" % (f1, lap, f2, lap)
+        if rng.random() < 0.3:      # same shape with the laps offered in several calls
+            k = rng.choice([2, 3, 4])
+            ops = "%d:r:1;" % f1 + ";".join(["%d:r:0" % (lap // k)] * k + ["%d:r:0" % (lap - (lap // k) * k)] if lap % k else ["%d:r:0" % (lap // k)] * k) \
+                  + ";%d:r:1;%d:r:0;a:r:2" % (f2, lap)
+        cases.append(dict(id="w%d" % (first_id + i), x=x, params=p, ops=ops, pledged=None, kind="wrap-alias", mt=False, pre=None))
+    return cases
+
+
 def pre_oneshot_cases(ctx, rng, n, first_id=0):
     """the same context served a single-call compression (other size) before the streamed frame"""
     cases = []
@@ -440,6 +472,7 @@ def run(ctx):
     kc = cc.compressor_cases(ctx, rng, 150 * k)
     kc += boundary_compressor_cases(ctx, rng, 90 * k)
     kc += pre_oneshot_cases(ctx, rng, 12 * k)
+    kc += wrap_alias_cases(ctx, rng, 20 * k)
     mt = cc.compressor_cases(ctx, rng, 24 * k, mt=True, big=1)
     for c in mt:
         c["id"] = "m" + c["id"]
